@@ -115,6 +115,7 @@ func concurrent(rnd *hx.Rand, workers, perWorker int, st *hx.Stats) []concObs {
 	var all []concObs
 	ids := map[uintptr]int{}
 	var stop atomic.Bool
+	var liveIDs sync.Map
 	bs := make([]*B, workers)
 	var f *fox.Router
 	routeIDs := map[uintptr]int{}
@@ -125,6 +126,15 @@ func concurrent(rnd *hx.Rand, workers, perWorker int, st *hx.Stats) []concObs {
 			fmt.Sscanf(c.Request().Header.Get("X-Worker"), "%d", &wid)
 			b := bs[wid]
 			exp := c.Request().Context().Value(expKey{}).(*concExp)
+			// pool discipline: a context serves one request at a time
+			cd, _ := fox.VerifCtxDump(c)
+			if _, busy := liveIDs.LoadOrStore(cd.ID, exp.tok); busy {
+				mu.Lock()
+				all = append(all, concObs{bad: true, spec: "XNone", human: "concurrent: request " + exp.rv.Path + " is served with a context that is serving another request right now (same *cTx handed out twice)"})
+				mu.Unlock()
+			} else {
+				defer liveIDs.Delete(cd.ID)
+			}
 			check := func(cc fox.Context, spec, why string) {
 				rmu.RLock()
 				v, ok := b.viewOf(cc)
@@ -161,7 +171,15 @@ func concurrent(rnd *hx.Rand, workers, perWorker int, st *hx.Stats) []concObs {
 			exp.clone, exp.cloneSpec = cl, spec
 			if exp.route != nil && exp.n%3 == 0 {
 				cw := c.CloneWith(c.Writer(), c.Request())
-				check(cw, spec, "concurrent CloneWith(own writer, own request) "+exp.rv.Path)
+				wd, _ := fox.VerifCtxDump(cw)
+				if _, busy := liveIDs.LoadOrStore(wd.ID, exp.tok); busy {
+					mu.Lock()
+					all = append(all, concObs{bad: true, spec: "XNone", human: "concurrent: CloneWith in " + exp.rv.Path + " returned a context that is in use (same *cTx handed out twice)"})
+					mu.Unlock()
+				} else {
+					check(cw, spec, "concurrent CloneWith(own writer, own request) "+exp.rv.Path)
+					liveIDs.Delete(wd.ID)
+				}
 				cw.Close()
 			}
 		}
@@ -188,6 +206,9 @@ func concurrent(rnd *hx.Rand, workers, perWorker int, st *hx.Stats) []concObs {
 		routeIDs[fox.VerifRouteID(cr.route)] = i + 1
 		routes = append(routes, cr)
 	}
+	// an infix catch-all route: requests under its prefix that do not match walk the sub-context scan
+	infix := f.MustHandle("GET", "/files/*{p}/meta", func(c fox.Context) {})
+	routeIDs[fox.VerifRouteID(infix)] = 900
 	var wg sync.WaitGroup
 	// writer: replaces the tree while requests are in flight
 	wg.Add(1)
@@ -216,7 +237,10 @@ func concurrent(rnd *hx.Rand, workers, perWorker int, st *hx.Stats) []concObs {
 				tok := fmt.Sprintf("C%dx%d", w, i)
 				exp := &concExp{tok: tok, n: 1 + r.Intn(50)}
 				path := "/zz/" + tok
-				if r.Pct(85) {
+				if r.Pct(40) {
+					path = "/files/a/b/" + tok
+				}
+				if r.Pct(80) {
 					k := r.Intn(len(routes))
 					t := &tmpls[k%5]
 					vals := []string{"v1" + tok, "v2" + tok, "v3" + tok}
@@ -336,10 +360,11 @@ func main() {
 				b.kinds["pool-stir:Has+Reverse"]++
 			}
 			if b.rnd.Pct(80) {
-				s.request(hx.Pick(b.rnd, []string{"direct", "direct", "tsr", "tsr", "othermethod", "options", "noroute", "hostfail", "hostfail"}))
+				s.request(hx.Pick(b.rnd, []string{"direct", "direct", "tsr", "tsr", "othermethod", "options", "noroute", "hostfail", "hostfail", "prefixmiss", "prefixmiss"}))
 			} else {
 				s.doLookup(nil, 1)
 			}
+			s.probePool()
 			s.recheckClones("after a later step", false)
 		}
 		s.recheckClones("at the end", true)
@@ -401,6 +426,41 @@ func main() {
 			hsN++
 		}
 	}
+	// hostile handlers (write into every mutable value the Context API returns; take extra contexts; pool discipline)
+	nHostile, hostileBudget := 400, 15
+	if tier == "thorough" {
+		nHostile, hostileBudget = 3000, 100
+	}
+	hoAll, hoSusp, hoEval := 0, 0, 0
+	for i := 0; i < nHostile; i++ {
+		obs, susp := hostileSeq(rnd.Fork(), 7000+i, st)
+		hoAll += len(obs)
+		if susp {
+			hoSusp++
+		}
+		if (!susp && i >= hostileBudget) || (susp && hoSusp > 40) {
+			continue
+		}
+		for _, o := range obs {
+			outT := fmt.Sprintf("OutObs (Ok %s) %s", o.v.coq(), Raw{Req: -1, Route: -1, PNil: true, TNil: true, CQNil: true}.coq())
+			if o.bad {
+				outT = "OutPanic"
+			}
+			t := fmt.Sprintf("(mkCase false [] [%s] [%s] %s)", outT, o.spec, nN(0))
+			hoEval++
+			if susp {
+				suspTerms, suspHumans = append(suspTerms, t), append(suspHumans, o.human)
+				continue
+			}
+			terms = append(terms, t)
+			humans = append(humans, o.human)
+			hsN++
+		}
+	}
+	st.Distribution["hostile:sequences"] = nHostile
+	st.Distribution["hostile:sequences-suspicious"] = hoSusp
+	st.Distribution["hostile:observations-run"] = hoAll
+	st.Distribution["hostile:observations-evaluated"] = hoEval
 	st.Distribution["hostseq:observations-run"] = hsAll
 	st.Distribution["hostseq:sequences-suspicious"] = hsSusp
 	st.Count("hostseq:sequences")
@@ -414,7 +474,7 @@ func main() {
 	emitted := 0
 	for i, o := range obs {
 		// all observations are evaluated by Coq up to a budget; beyond it a sample (every k-th)
-		if emitted >= concEmit && i%(len(obs)/concEmit+1) != 0 {
+		if !o.bad && emitted >= concEmit && i%(len(obs)/concEmit+1) != 0 {
 			continue
 		}
 		emitted++
